@@ -22,11 +22,21 @@ let rl_sec_of_key k =
   else if k.[0] = 'z' then Some (zl_of_string "Zone", zl_of_string ("rl-" ^ k))
   else Some (zl_of_string "CheckCommand", zl_of_string ("rl-" ^ k))
 
+(* ---- the glue state: the byte-level model state (RlModel) and the record-level one (RlCompact).  Both are kept while
+   both are meaningful and every observation line is computed from both (a difference is printed as RLX-SELFCHECK and so
+   shows up as a mismatch): [bok] is false after an event with a large payload (the byte level is not executed on
+   megabytes), [xok] is false after a byte has been overwritten (the record level has no bytes). ---- *)
+type rl_glue = { b : rl_st; x : rl_xst; bok : bool; xok : bool }
+let rl_mk_eps durs =
+  List.mapi (fun i z -> { rl_ep_id = z_of_int (i + 1); rl_ep_zone = z_of_int z; rl_ep_dur = z_of_int (List.nth durs i);
+                          rl_ep_pos = Z0; rl_ep_rpos = Z0; rl_ep_conn = false; rl_ep_sync = false }) rl_ep_zones
 let rl_mk_state durs =
-  { rl_files = []; rl_cur = []; rl_lmt = z_of_int !now; rl_cnt = Z0;
-    rl_eps = List.mapi (fun i z -> { rl_ep_id = z_of_int (i + 1); rl_ep_zone = z_of_int z; rl_ep_dur = z_of_int (List.nth durs i);
-                                     rl_ep_pos = Z0; rl_ep_rpos = Z0; rl_ep_conn = false; rl_ep_sync = false }) rl_ep_zones }
-let rl_state = ref (rl_mk_state [86400; 86400; 86400; 86400; 86400; 86400])
+  { b = { rl_files = []; rl_cur = []; rl_lmt = z_of_int !now; rl_cnt = Z0; rl_eps = rl_mk_eps durs };
+    x = { rl_x_files = []; rl_x_cur = []; rl_x_lmt = z_of_int !now; rl_x_cnt = Z0; rl_x_eps = rl_mk_eps durs };
+    bok = true; xok = true }
+let rl_g = ref (rl_mk_state [86400; 86400; 86400; 86400; 86400; 86400])
+let rl_big_threshold = 4096
+let rl_eps_now () = if !rl_g.bok then !rl_g.b.rl_eps else !rl_g.x.rl_x_eps
 
 let find_num s key =
   let kl = String.length key and sl = String.length s in
@@ -38,82 +48,168 @@ let find_num s key =
     while !q < sl && s.[!q] >= '0' && s.[!q] <= '9' && !n < 15 do v := !v * 10 + (Char.code s.[!q] - 48); incr q; incr n done;
     !v end
 
+let rl_msg_string s =
+  let sum = ref 0 in String.iter (fun c -> sum := (!sum + Char.code c) land 0xffff) s;
+  Printf.sprintf "M%d:%d:%d:%d" (String.length s) !sum (find_num s "\"id\":") (find_num s "\"ts\":")
 let rl_item_string = function
   | RlOutPos p -> "P" ^ zs p
-  | RlOutMsg m ->
-    let s = string_of_zl m in
-    let sum = ref 0 in String.iter (fun c -> sum := (!sum + Char.code c) land 0xffff) s;
-    Printf.sprintf "M%d:%d:%d:%d" (String.length s) !sum (find_num s "\"id\":") (find_num s "\"ts\":")
+  | RlOutMsg m -> rl_msg_string (string_of_zl m)
 let rl_items l = if l = [] then "-" else String.concat "," (List.map rl_item_string l)
+(* the same item for a run-length encoded message: length and byte sum from the runs; id and ts stand in the literal runs *)
+let rl_xmsg_string (m : rl_rle) =
+  let lits = String.concat "\001" (List.map (fun (n, p) -> if int_of_z n = 1 then string_of_zl p else "") m) in
+  Printf.sprintf "M%d:%d:%d:%d" (int_of_z (rl_x_len m)) ((int_of_z (rl_x_sum m)) land 0xffff) (find_num lits "\"id\":") (find_num lits "\"ts\":")
+let rl_xitem_string = function RlXPos p -> "P" ^ zs p | RlXMsg m -> rl_xmsg_string m
+let rl_xitems l = if l = [] then "-" else String.concat "," (List.map rl_xitem_string l)
 
-let rl_get id = match rl_get_ep (!rl_state).rl_eps (z_of_int id) with Some e -> e | None -> failwith "no such endpoint"
+let rl_get id = match rl_get_ep (rl_eps_now ()) (z_of_int id) with Some e -> e | None -> failwith "no such endpoint"
+
+(* print the observation computed from whichever levels are valid *)
+let rl_emit2 lb lx =
+  let g = !rl_g in
+  match g.bok, g.xok with
+  | true, true -> let b = lb () and x = lx () in emit b; if b <> x then emit ("RLX-SELFCHECK record-level model prints: " ^ x)
+  | true, false -> emit (lb ())
+  | false, true -> emit (lx ())
+  | false, false -> emit "RLX-UNSUPPORTED script mixes large payloads with byte corruption"
 
 let op_rl_init a =
   let durs = List.map int_of_string (String.split_on_char ',' (str a "dur" "86400,86400,86400,86400,86400,86400")) in
-  rl_state := rl_mk_state durs
+  rl_g := rl_mk_state durs
+
+(* pad=R<n>x<hh>: a member "pad" of n bytes hh (printable ASCII) in the event's params *)
+let rl_parse_pad a =
+  let p = str a "pad" "-" in
+  if p = "-" then (-1, 120)
+  else match String.split_on_char 'x' (String.sub p 1 (String.length p - 1)) with
+    | [n; h] -> (int_of_string n, int_of_string ("0x" ^ h))
+    | _ -> failwith "bad pad"
 
 let op_rl_relay a =
   let id = num a "id" 0 in
-  let msg = rl_mk_msg (z_of_int id) (z_of_int !now) in
-  let r = rl_relay rl_topo0 (z_of_int !now) (rl_sec_of_key (str a "sec" "-")) msg !rl_state in
-  rl_state := r.rl_rl_st;
-  let live = List.sort compare (List.map int_of_z r.rl_rl_live) in
-  let ls = String.concat ";" (List.map (fun i -> Printf.sprintf "%d=%s" i (rl_item_string (RlOutMsg msg))) live) in
-  emit (Printf.sprintf "rl_relay logged=%d live=%s" (if r.rl_rl_logged then 1 else 0) (if ls = "" then "-" else ls))
+  let (pn, pc) = rl_parse_pad a in
+  let xm = rl_mk_xmsg (z_of_int id) (z_of_int !now) (z_of_int pn) (z_of_int pc) in
+  let g = !rl_g in
+  let g = if pn > rl_big_threshold then { g with bok = false } else g in
+  let sec = rl_sec_of_key (str a "sec" "-") in
+  let line logged live item =
+    let live = List.sort compare (List.map int_of_z live) in
+    let ls = String.concat ";" (List.map (fun i -> Printf.sprintf "%d=%s" i item) live) in
+    Printf.sprintf "rl_relay logged=%d live=%s" (if logged then 1 else 0) (if ls = "" then "-" else ls) in
+  let lb = ref "" and lx = ref "" in
+  let g = if g.bok then begin
+      let msg = rl_x_expand xm in
+      let r = rl_relay rl_topo0 (z_of_int !now) sec msg g.b in
+      lb := line r.rl_rl_logged r.rl_rl_live (rl_item_string (RlOutMsg msg));
+      { g with b = r.rl_rl_st } end else g in
+  let g = if g.xok then begin
+      let r = rl_x_relay rl_topo0 (z_of_int !now) sec xm g.x in
+      lx := line r.rl_xrl_logged r.rl_xrl_live (rl_xmsg_string xm);
+      { g with x = r.rl_xrl_st } end else g in
+  rl_g := g;
+  rl_emit2 (fun () -> !lb) (fun () -> !lx)
 
 let op_rl_conn a =
   let id = num a "e" 0 in
-  let mirror =
-    if num a "mirror" 0 <> 0 then begin
-      let r1 = rl_replay rl_topo0 (z_of_int !now) (rl_get id) !rl_state in
-      rl_state := rl_feed_acks (z_of_int id) r1.rl_rr_out r1.rl_rr_st;
-      " mirror=" ^ rl_items r1.rl_rr_out end
-    else "" in
-  let r = rl_replay rl_topo0 (z_of_int !now) (rl_get id) !rl_state in
-  rl_state := r.rl_rr_st;
-  emit (Printf.sprintf "rl_conn e=%d%s out=%s%s" id mirror (rl_items r.rl_rr_out) (if r.rl_rr_done then "" else " NOTDONE"))
+  let zid = z_of_int id and znow = z_of_int !now in
+  let mirror = num a "mirror" 0 <> 0 in
+  let g = !rl_g in
+  let lb = ref "" and lx = ref "" in
+  let g = if g.bok then begin
+      let ep () = match rl_get_ep !rl_g.b.rl_eps zid with Some e -> e | None -> failwith "no such endpoint" in
+      let st = ref g.b in
+      let m = if mirror then begin
+          let r1 = rl_replay_src rl_topo0 znow (match rl_get_ep !st.rl_eps zid with Some e -> e | None -> ep ()) !st in
+          st := rl_feed_acks zid r1.rl_rr_out r1.rl_rr_st;
+          " mirror=" ^ rl_items r1.rl_rr_out end else "" in
+      let r = rl_replay_src rl_topo0 znow (match rl_get_ep !st.rl_eps zid with Some e -> e | None -> ep ()) !st in
+      lb := Printf.sprintf "rl_conn e=%d%s out=%s%s" id m (rl_items r.rl_rr_out) (if r.rl_rr_done then "" else " NOTDONE");
+      { g with b = r.rl_rr_st } end else g in
+  let g = if g.xok then begin
+      let get st = match rl_get_ep st.rl_x_eps zid with Some e -> e | None -> failwith "no such endpoint" in
+      let st = ref g.x in
+      let m = if mirror then begin
+          let r1 = rl_x_replay_src rl_topo0 znow (get !st) !st in
+          st := rl_x_feed_acks zid r1.rl_xrr_out r1.rl_xrr_st;
+          " mirror=" ^ rl_xitems r1.rl_xrr_out end else "" in
+      let r = rl_x_replay_src rl_topo0 znow (get !st) !st in
+      lx := Printf.sprintf "rl_conn e=%d%s out=%s%s" id m (rl_xitems r.rl_xrr_out) (if r.rl_xrr_done then "" else " NOTDONE");
+      { g with x = r.rl_xrr_st } end else g in
+  rl_g := g;
+  rl_emit2 (fun () -> !lb) (fun () -> !lx)
+
+(* state-only operations: applied to both levels *)
+let rl_both fb fx = let g = !rl_g in rl_g := { g with b = (if g.bok then fb g.b else g.b); x = (if g.xok then fx g.x else g.x) }
 
 let op_rl_disc a =
-  let st = !rl_state in
-  rl_state := rl_set_eps st (rl_upd_ep (rl_ep_set_conn false false) (z_of_int (num a "e" 0)) st.rl_eps)
+  let id = z_of_int (num a "e" 0) in
+  rl_both (fun st -> rl_set_eps st (rl_upd_ep (rl_ep_set_conn false false) id st.rl_eps))
+          (fun st -> rl_x_set_eps st (rl_upd_ep (rl_ep_set_conn false false) id st.rl_x_eps))
 
-let op_rl_rotate _ = rl_state := rl_rotate_cycle (z_of_int !now) !rl_state
-let op_rl_restart a = rl_state := rl_restart (num a "clean" 0 <> 0) (z_of_int !now) !rl_state
+let op_rl_rotate _ = rl_both (rl_rotate_cycle (z_of_int !now)) (rl_x_rotate_cycle (z_of_int !now))
+let op_rl_restart a = let c = num a "clean" 0 <> 0 in rl_both (rl_restart c (z_of_int !now)) (rl_x_restart c (z_of_int !now))
 
 let op_rl_ack a =
   let id = num a "e" 0 in
-  if (rl_get id).rl_ep_conn then rl_state := rl_ack (z_of_int id) (z_of_int (num a "p" 0)) !rl_state
+  if (rl_get id).rl_ep_conn then rl_both (rl_ack (z_of_int id) (z_of_int (num a "p" 0))) (rl_x_ack (z_of_int id) (z_of_int (num a "p" 0)))
 
 let op_rl_recv a =
   let id = num a "e" 0 in
   if (rl_get id).rl_ep_conn then begin
-    let (acc, st) = rl_recv (z_of_int id) (z_of_int (num a "ts" 0)) !rl_state in
-    rl_state := st;
-    emit (Printf.sprintf "rl_recv e=%d accepted=%d" id (if acc then 1 else 0)) end
+    let zid = z_of_int id and ts = z_of_int (num a "ts" 0) in
+    let g = !rl_g in
+    let line acc = Printf.sprintf "rl_recv e=%d accepted=%d" id (if acc then 1 else 0) in
+    let lb = ref "" and lx = ref "" in
+    let g = if g.bok then (let (acc, st) = rl_recv zid ts g.b in lb := line acc; { g with b = st }) else g in
+    let g = if g.xok then (let (acc, st) = rl_x_recv zid ts g.x in lx := line acc; { g with x = st }) else g in
+    rl_g := g;
+    rl_emit2 (fun () -> !lb) (fun () -> !lx) end
 
 let op_rl_timer _ =
-  rl_state := rl_cleanup rl_topo0 (z_of_int !now) !rl_state;
-  let acks = List.map (fun (i, p) -> Printf.sprintf "%s=P%s" (zs i) (zs p)) (rl_timer_acks !rl_state) in
-  emit ("rl_timer acks=" ^ (if acks = [] then "-" else String.concat ";" acks))
+  rl_both (rl_cleanup rl_topo0 (z_of_int !now)) (rl_x_cleanup rl_topo0 (z_of_int !now));
+  let line eps =
+    let acks = List.map (fun (i, p) -> Printf.sprintf "%s=P%s" (zs i) (zs p))
+        (rl_timer_acks { rl_files = []; rl_cur = []; rl_lmt = Z0; rl_cnt = Z0; rl_eps = eps }) in
+    "rl_timer acks=" ^ (if acks = [] then "-" else String.concat ";" acks) in
+  rl_emit2 (fun () -> line !rl_g.b.rl_eps) (fun () -> line !rl_g.x.rl_x_eps)
 
-let rl_damage a f =
-  let st = !rl_state in
-  let st' = if str a "f" "cur" = "cur" then rl_map_cur f st else rl_map_file (z_of_int (int_of_string (str a "f" "0"))) f st in
-  rl_state := rl_open (z_of_int !now) st'
-let op_rl_trunc a = rl_damage a (rl_truncate_bytes (z_of_int (num a "k" 0)))
-let op_rl_corrupt a = rl_damage a (rl_set_byte (nat_of_int (num a "k" 0)) (z_of_int (num a "b" 0)));
+(* damage.  A cut is also defined on records (entries ending at or before the offset stay); an overwritten byte is not *)
+let rl_fname a = str a "f" "cur"
+let op_rl_trunc a =
+  let k = z_of_int (num a "k" 0) in
+  let f = rl_fname a in
+  rl_both (fun st -> rl_open (z_of_int !now) (if f = "cur" then rl_map_cur (rl_truncate_bytes k) st else rl_map_file (z_of_int (int_of_string f)) (rl_truncate_bytes k) st))
+          (fun st -> rl_x_open (z_of_int !now)
+              (if f = "cur" then { st with rl_x_cur = rl_x_truncate k st.rl_x_cur }
+               else { st with rl_x_files = List.map (fun (n, es) -> if int_of_z n = int_of_string f then (n, rl_x_truncate k es) else (n, es)) st.rl_x_files }));
+  (* a partial frame may remain at the end of the file: the record level no longer knows the file's size, nor what an append would do *)
+  if !rl_g.bok then rl_g := { !rl_g with xok = false }
+let op_rl_corrupt a =
+  let f = rl_fname a in
+  let fn = rl_set_byte (nat_of_int (num a "k" 0)) (z_of_int (num a "b" 0)) in
+  rl_g := { !rl_g with xok = false };
+  rl_both (fun st -> rl_open (z_of_int !now) (if f = "cur" then rl_map_cur fn st else rl_map_file (z_of_int (int_of_string f)) fn st)) (fun st -> st);
   if num a "lax" 0 <> 0 then emit "rl_corrupt lax"
 
 let op_rl_ls _ =
-  let st = !rl_state in
-  let fs = List.map (fun (n, b) -> Printf.sprintf "%s:%d" (zs n) (List.length b)) st.rl_files in
-  let eps = List.map (fun e -> Printf.sprintf "%s/%s/%d%d" (zs e.rl_ep_pos) (zs e.rl_ep_rpos) (if e.rl_ep_conn then 1 else 0) (if e.rl_ep_sync then 1 else 0)) st.rl_eps in
-  emit (Printf.sprintf "rl_ls files=%s cur=%d eps=%s lmt=%s" (if fs = [] then "-" else String.concat "," fs) (List.length st.rl_cur)
-          (String.concat "," eps) (zs st.rl_lmt))
+  let fmt files cur eps lmt =
+    let eps = List.map (fun e -> Printf.sprintf "%s/%s/%d%d" (zs e.rl_ep_pos) (zs e.rl_ep_rpos) (if e.rl_ep_conn then 1 else 0) (if e.rl_ep_sync then 1 else 0)) eps in
+    Printf.sprintf "rl_ls files=%s cur=%d eps=%s lmt=%s" (if files = [] then "-" else String.concat "," files) cur (String.concat "," eps) (zs lmt) in
+  rl_emit2
+    (fun () -> let st = !rl_g.b in
+      fmt (List.map (fun (n, b) -> Printf.sprintf "%s:%d" (zs n) (List.length b)) st.rl_files) (List.length st.rl_cur) st.rl_eps st.rl_lmt)
+    (fun () -> let st = !rl_g.x in
+      fmt (List.map (fun (n, es) -> Printf.sprintf "%s:%d" (zs n) (int_of_z (rl_x_file_size es))) st.rl_x_files)
+        (int_of_z (rl_x_file_size st.rl_x_cur)) st.rl_x_eps st.rl_x_lmt)
 
 
 (* ---------------- oracle: the extracted Gallina checks (RlObs.v) over the IMPLEMENTATION's trace ---------------- *)
 let rl_digest_entry e = { e with rl_e_msg = zl_of_string (rl_item_string (RlOutMsg e.rl_e_msg)) }
+let rl_xdigest_entry (e : rl_xentry) = { rl_e_ts = e.rl_xe_ts; rl_e_sec = e.rl_xe_sec; rl_e_msg = zl_of_string (rl_xmsg_string e.rl_xe_msg) }
+(* the decodable entries of the log a glue state stands for, messages replaced by their printed item *)
+let rl_glue_log g = if g.bok then List.map rl_digest_entry (rl_log_entries g.b) else List.map rl_xdigest_entry (rl_x_log_entries g.x)
+let rl_glue_raw_log g = if g.bok then rl_log_entries g.b else List.map rl_xdigest_entry (rl_x_log_entries g.x)
+let rl_glue_eps g = if g.bok then g.b.rl_eps else g.x.rl_x_eps
 let split_on c s = if s = "-" || s = "" then [] else String.split_on_char c s
 
 let oracle_c12_case script trace =
@@ -123,14 +219,14 @@ let oracle_c12_case script trace =
   let pop () = match !tr with
     | [] -> fail "crash missing-observation"; ""
     | l :: r -> tr := r; if is_bad_line l then fail ("crash " ^ l); l in
-  let main = ref !rl_state and intact = ref !rl_state in
-  let on st f = rl_state := !st; f (); st := !rl_state in
+  let main = ref !rl_g and intact = ref !rl_g in
+  let on st f = rl_g := !st; f (); st := !rl_g in
   let both f = on main f; on intact f in
   let obs_eps : (int * int) array ref = ref [||] and obs_files = ref [] and obs_cur = ref 0 and have_obs = ref false in
   let damaged = ref false and corrupted = ref false in
   let pending_timer = ref None and pending_restart = ref None in
   let eps_obs () = List.mapi (fun i e -> if !have_obs && i < Array.length !obs_eps
-                                then { e with rl_ep_pos = z_of_int (fst (!obs_eps).(i)); rl_ep_rpos = z_of_int (snd (!obs_eps).(i)) } else e) (!main).rl_eps in
+                                then { e with rl_ep_pos = z_of_int (fst (!obs_eps).(i)); rl_ep_rpos = z_of_int (snd (!obs_eps).(i)) } else e) (rl_glue_eps !main) in
   List.iter (fun line -> if !err = None then
     match parse_line line with
     | Some ("now", a) -> now := tnum (List.hd a.pos)
@@ -153,14 +249,18 @@ let oracle_c12_case script trace =
         if int_of_z ep.rl_ep_dur = 0 then begin
           if msgs <> [] then fail (Printf.sprintf "replay-mismatch e=%d log_duration=0 but got=%s" id (String.concat "," msgs)) end
         else if not !damaged then begin
-          let log = List.map rl_digest_entry (rl_log_entries !main) in
+          let log = rl_glue_log !main in
           if not (rl_or_replay rl_topo0 ep.rl_ep_zone ep.rl_ep_pos log delivered) then
             fail (Printf.sprintf "%s e=%d pos=%d got=%s" (if num a "mirror" 0 <> 0 then "replay-setlogposition-acks-wrong-log" else "replay-mismatch")
-                    id pos (String.concat "," msgs)) end
+                    id pos (String.concat "," msgs))
+          (* timestamps that do not strictly increase in log order (the sender's clock did not advance or stepped back between two
+             relays): the statement still owes the endpoint every persisted entry above its position *)
+          else if not (rl_strict_b log) && num a "mirror" 0 = 0 && not (rl_or_damaged rl_topo0 ep.rl_ep_zone ep.rl_ep_pos log delivered) then
+            fail (Printf.sprintf "nonincreasing-timestamps-not-replayed e=%d pos=%d got=%s" id pos (String.concat "," msgs)) end
         else begin
-          let log = List.map rl_digest_entry (rl_log_entries !intact) in
+          let log = rl_glue_log !intact in
           if not (rl_or_damaged rl_topo0 ep.rl_ep_zone ep.rl_ep_pos log delivered) then begin
-            if !corrupted && not (rl_strict_b (rl_log_entries !main)) then
+            if !corrupted && not (rl_strict_b (rl_glue_raw_log !main)) then
               fail (Printf.sprintf "corrupt-timestamp-hides-later-entries e=%d pos=%d got=%s" id pos (String.concat "," msgs))
             else fail (Printf.sprintf "damaged-intact-missing e=%d pos=%d got=%s" id pos (String.concat "," msgs)) end end
       end;
@@ -198,7 +298,7 @@ let oracle_c12_case script trace =
       both (fun () -> op_rl_restart a)
     | Some ("rl_recv", a) ->
       let id = num a "e" 0 in
-      rl_state := !main;
+      rl_g := !main;
       if (rl_get id).rl_ep_conn then begin
         let l = pop () in
         if !err = None && !have_obs then begin
